@@ -235,7 +235,7 @@ fn gen_history(rng: &mut Rng, p: &Params, case: u64) -> Vec<Evt> {
             0 => Ev::Some(t, [rng.moderate(1e4), rng.moderate(1e3), rng.moderate(1e2)]),
             1 => Ev::None,
             2 => Ev::Err(1),
-            _ => Ev::Err(2),
+            _ => Ev::Err(if rng.chance(0.5) { 2 } else { 0 }), // 0 = the crate's own Error::FromNone
         };
         let set_cmd = if p.kind == 1 && rng.chance(0.2) {
             let c = match rng.below(3) {
@@ -250,6 +250,17 @@ fn gen_history(rng: &mut Rng, p: &Params, case: u64) -> Vec<Evt> {
         out.push(Evt { input, set_cmd, cond });
     }
     out
+}
+/// `skip[i]` = do not call get() at all after event i (the outputs there are reported as Obs::Panic placeholders
+/// and never compared): "any number of times" includes zero.
+fn run_sparse(p: &Params, cmd0: Command, h: &[Evt], skip: &[bool]) -> Vec<Option<Obs>> {
+    let mut s = make(p, cmd0);
+    let mut outs = Vec::with_capacity(h.len());
+    for (i, e) in h.iter().enumerate() {
+        if catch(|| s.step(e)).is_err() { outs.push(Some(Obs::Panic)); break; }
+        outs.push(if skip[i] { None } else { Some(s.get()) });
+    }
+    outs
 }
 fn run_all(p: &Params, cmd0: Command, h: &[Evt], extra_gets: Option<&mut Rng>) -> (Vec<Obs>, Vec<Result<(), i32>>, bool) {
     let mut s = make(p, cmd0);
@@ -311,12 +322,25 @@ fn main() {
             if d != a {
                 rep.violation(&format!("C05/get-affects-later/{}", name), sub, case, format!("extra get() calls changed outputs; params={:?} history={:?} a={:?} d={:?}", p, h, a, d));
             }
+            // ... and reading at only some of the steps (zero get() calls elsewhere) changes nothing where it is read
+            let skip: Vec<bool> = (0..h.len()).map(|_| r2.chance(0.6)).collect();
+            let sp = run_sparse(&p, p.cmd, &h, &skip);
+            rep.eval();
+            rep.tally("sparse_observation_runs");
+            for i in 0..sp.len().min(a.len()) {
+                if let Some(o) = &sp[i] {
+                    if *o != a[i] {
+                        rep.violation(&format!("C05/get-schedule-affects-output/{}", name), sub, case, format!("event {}: read after every update gives {:?}, read only at steps {:?} gives {:?}; params={:?} history={:?}", i, a[i], skip.iter().enumerate().filter(|x| !*x.1).map(|x| x.0).collect::<Vec<_>>(), o, p, h));
+                        break;
+                    }
+                }
+            }
             if kind == 13 {
                 // freeze state machine
                 let mut last_passed = Obs::None;
                 let mut none_since_pass = false;
                 for (i, e) in h.iter().enumerate() {
-                    let inp = match &e.input { Ev::Some(t, v) => Obs::Some(*t, [cbits(v[0]), 0, 0], (0, 0)), Ev::None => Obs::None, Ev::Err(c) => Obs::Err(*c as i32) };
+                    let inp = match &e.input { Ev::Some(t, v) => Obs::Some(*t, [cbits(v[0]), 0, 0], (0, 0)), Ev::None => Obs::None, Ev::Err(c) => Obs::Err(ecode(&err_code(*c))) };
                     let ok = match e.cond {
                         None => { none_since_pass = true; rep.tally("freeze/cond_none"); a[i] == Obs::None }
                         Some(false) => { last_passed = inp.clone(); none_since_pass = false; rep.tally("freeze/cond_false"); a[i] == inp }
@@ -335,7 +359,7 @@ fn main() {
                 if let Obs::Err(code) = a[i] {
                     rep.eval();
                     rep.tally(&format!("err_outputs/{}", name));
-                    let ok = matches!(e.input, Ev::Err(c) if c as i32 == code);
+                    let ok = matches!(e.input, Ev::Err(c) if ecode(&err_code(c)) == code);
                     if !ok {
                         rep.violation(&format!("C05/stale-error/{}", name), sub, case, format!("after event {} = {:?} (update returned {:?}) get() = Err({}) which the input did not return at this update; params={:?} history={:?}", i, e.input, upd[i], code, p, h));
                         break;
